@@ -36,7 +36,7 @@ class DoesNotReturn(Exception):
 
 
 RETURN_CPU_S = float(os.environ.get("VERIF_RETURN_CPU_S", "300"))      # processor seconds on one input (ordinary inputs: milliseconds)
-RETURN_IDLE_S = float(os.environ.get("VERIF_RETURN_IDLE_S", "1200"))   # seconds on one input without using the processor (blocked)
+RETURN_IDLE_S = float(os.environ.get("VERIF_RETURN_IDLE_S", "600"))   # seconds on one input without using the processor (blocked)
 _CLK = os.sysconf("SC_CLK_TCK")
 
 
